@@ -155,6 +155,26 @@ def run(ctx):
            line=bounded[0].line if bounded else acq.line)
 
 
+    # ---------------------------------------------------------------- C11.8
+    ctx.rule('C11.8', 'nothing of a tool outlives the call that held the lock: the tool runner drops a handler future when its timeout expires, and the session then releases the '
+             'workspace lock — so every child process a tool handler of rip_tools::builtins starts (tokio::process::Command::spawn) is configured with kill_on_drop(true) on the same '
+             'command before the spawn. (A std::process child, or a tokio child without it, keeps running and keeps writing after tool_failed: timeout — the repaired F-C11-timeout. '
+             'Not decided here: a spawn_blocking file tool that is still inside its write when the timeout fires.)')
+    n8 = 0
+    for g in [x for x in P.fns.values() if x.crate == 'rip_tools' and re.match(r'^rip_tools::builtins::', x.path)]:
+        for sp in g.calls(r'^tokio::process::Command::spawn$|^std::process::Command::(spawn|output|status)$|^tokio::process::Command::(output|status)$'):
+            n8 += 1
+            cmd = g.root_local(sp.args[0]) if sp.args else None
+            kod = [k for k in g.calls(r'^tokio::process::Command::kill_on_drop$') if k.args and g.root_local(k.args[0]) == cmd and g.dom(k.bb, sp.bb)
+                   and (op_const(k.args[1]) or {}).get('v') is True]
+            is_tokio = sp.callee.startswith('tokio::')
+            ok8 = bool(kod) and is_tokio
+            ctx.ob('C11.8', g, 'child-dies-with-the-call:' + sp.name, ok8,
+                   '%s %s' % (sp.callee, 'on a command configured with kill_on_drop(true)' if ok8 else
+                              ('of a std::process child: it cannot be tied to the handler future' if not is_tokio else
+                               'WITHOUT kill_on_drop(true) on that command: when the runner drops the handler at a timeout the child keeps running outside the workspace lock')), line=sp.line)
+    ctx.floor('C11.8', 'child processes started by tool handlers', n8, 1)
+
     # ---------------------------------------------------------------- C11.5
     from .c01 import ok_edge_of_try
     sm = P.fn('ripd::session::summarize_continuity_tool_side_effects')
